@@ -1,7 +1,7 @@
 (** C12, function layer: no modelled slicing function panics, on any input
     (the code after the fix wave, fixes/c12-2 … c12-7). *)
 From Coq Require Import String Ascii List Bool Arith NArith ZArith Lia.
-From Raven Require Import Base.GoStr Model.Slicers.
+From Raven Require Import Base.GoStr Base.GoStrFacts Model.Slicers.
 Import ListNotations.
 Local Open Scope char_scope.
 
@@ -122,11 +122,43 @@ Proof.
   destruct (addr_structs l); [discriminate | congruence].
 Qed.
 
-Theorem parse_address_list_total (a : str) : parse_address_list a <> None.
+Theorem parse_fallback_total (a : str) : parse_fallback a <> None.
 Proof.
-  unfold parse_address_list. destruct a as [|c a]; [discriminate|].
+  unfold parse_fallback. destruct a as [|c a]; [discriminate|].
   destruct (addr_structs (split_byte (c :: a) ",")) as [l|] eqn:E; [destruct l; discriminate|].
   now apply addr_structs_total in E.
+Qed.
+
+Lemma last_index_byte_lt (s : str) (c : ascii) (k : nat) : last_index_byte s c = Some k -> k < length s.
+Proof.
+  unfold last_index_byte. destruct (index_byte (rev s) c) as [j|] eqn:E; [|discriminate].
+  intros H. injection H as <-. apply index_byte_lt in E. rewrite rev_length in E. lia.
+Qed.
+
+Lemma render_mail_addr_total (na : str * str) : render_mail_addr na <> None.
+Proof.
+  destruct na as [name addr]. unfold render_mail_addr.
+  destruct (last_index_byte addr "@") as [k|] eqn:E; [|discriminate].
+  apply last_index_byte_lt in E.
+  destruct (slice_some addr 0 (Z.of_nat k)) as [m Hm]; unfold zlen; try lia.
+  unfold slice_to. rewrite Hm.
+  destruct (slice_some addr (Z.of_nat k + 1) (zlen addr)) as [h Hh]; unfold zlen; try lia.
+  unfold slice_from. unfold zlen in Hh. rewrite Hh. discriminate.
+Qed.
+
+Lemma render_mail_addrs_total (l : list (str * str)) : render_mail_addrs l <> None.
+Proof.
+  induction l as [|a l IH]; simpl; [discriminate|].
+  destruct (render_mail_addr a) eqn:E; [|now apply render_mail_addr_total in E].
+  destruct (render_mail_addrs l); [discriminate | congruence].
+Qed.
+
+(** whatever net/mail answers *)
+Theorem parse_address_list_total (mp : str -> option (list (str * str))) (a : str) : parse_address_list mp a <> None.
+Proof.
+  unfold parse_address_list. destruct a as [|c a]; [discriminate|].
+  destruct (mp (c :: a)) as [[|x l]|]; try apply parse_fallback_total.
+  destruct (render_mail_addrs (x :: l)) eqn:E; [discriminate | now apply render_mail_addrs_total in E].
 Qed.
 
 (** ---- extractHeader ---- *)
@@ -155,7 +187,7 @@ Proof.
 Qed.
 
 (** ---- BuildEnvelope ---- *)
-Theorem build_envelope_total (raw : str) : build_envelope raw <> None.
+Theorem build_envelope_total (mp : str -> option (list (str * str))) (raw : str) : build_envelope mp raw <> None.
 Proof.
   unfold build_envelope.
   repeat match goal with
@@ -164,9 +196,9 @@ Proof.
       destruct (extract_header_some raw n) as [v E]; rewrite E; clear E
   end.
   repeat match goal with
-  | |- context [parse_address_list ?x] =>
+  | |- context [parse_address_list mp ?x] =>
       let E := fresh "E" in
-      destruct (parse_address_list x) eqn:E; [|now apply parse_address_list_total in E]; clear E
+      destruct (parse_address_list mp x) eqn:E; [|now apply parse_address_list_total in E]; clear E
   end.
   discriminate.
 Qed.
@@ -200,65 +232,92 @@ Proof.
       do 2 f_equal. lia.
 Qed.
 
-Theorem numeric_partial_total (rest payload : str) : numeric_partial rest payload <> None.
+(** ---- parseFetchItem / parseFetchItems ---- *)
+Lemma nth_some {A} (l : list A) (i : nat) : i < length l -> exists x, nth_error l i = Some x.
+Proof. intros H. destruct (nth_error l i) eqn:E; [eauto|]. apply nth_error_None in E. lia. Qed.
+
+Theorem parse_fetch_item_total (tok : str) : parse_fetch_item tok <> None.
 Proof.
-  unfold numeric_partial.
-  destruct rest as [|c r]; [discriminate|].
-  destruct (Ascii.eqb_spec c "<") as [->|N]; [|discriminate].
-  destruct (index_byte ("<" :: r) ">") as [cl|] eqn:I; [|discriminate].
+  unfold parse_fetch_item.
+  destruct (index_byte tok "[") as [o|] eqn:I; [|discriminate].
   pose proof (index_byte_lt _ _ _ I) as L.
-  assert (1 <= cl).
-  { destruct cl; [|lia]. apply index_byte_nth in I. simpl in I. discriminate. }
-  destruct (slice_some ("<" :: r) 1 (Z.of_nat cl)) as [spec Hs]; unfold zlen; try lia.
-  rewrite Hs. destruct (sscan_d_dot_d spec) as [[a|] [b|]]; try discriminate.
-  apply partial_apply_total.
+  destruct (slice_some tok 0 (Z.of_nat o)) as [nm Hn]; unfold zlen; try lia.
+  unfold slice_to at 1. rewrite Hn.
+  destruct (slice_some tok (Z.of_nat o + 1) (zlen tok)) as [rest Hr]; unfold zlen; try lia.
+  unfold slice_from at 1. unfold zlen in Hr. rewrite Hr.
+  destruct (index_byte rest "]") as [e|] eqn:J; [|discriminate].
+  pose proof (index_byte_lt _ _ _ J) as L2.
+  destruct (slice_some rest 0 (Z.of_nat e)) as [sec Hs]; unfold zlen; try lia.
+  unfold slice_to. rewrite Hs.
+  destruct (slice_some rest (Z.of_nat e + 1) (zlen rest)) as [rng Hg]; unfold zlen; try lia.
+  unfold slice_from. unfold zlen in Hg. rewrite Hg.
+  destruct (Nat.leb_spec 2 (length rng)) as [G|G]; [|discriminate].
+  destruct (nth_some rng 0) as [c0 ->]; [lia|].
+  destruct (nth_some rng (length rng - 1)) as [cl ->]; [lia|].
+  destruct (Ascii.eqb c0 "<" && Ascii.eqb cl ">"); [|discriminate].
+  destruct (slice_some rng 1 (zlen rng - 1)) as [spec Hsp]; unfold zlen in *; try lia.
+  rewrite Hsp.
+  destruct (sscan_d_dot_d spec) as [[a|] [b|]]; try discriminate.
+  destruct ((0 <=? a)%Z && (0 <=? b)%Z); discriminate.
 Qed.
 
-Theorem text_partial_total (items body : str) : text_partial items body <> None.
+Lemma flush_item_total (items : str) (st e : nat) : st <= e -> e <= length items -> flush_item items st e <> None.
 Proof.
-  unfold text_partial.
-  destruct (contains_byte items "<" && contains_byte items ">"); [|discriminate].
-  destruct (index_byte items "<") as [si|] eqn:I1; [|discriminate].
-  destruct (index_byte items ">") as [ei|] eqn:I2; [|discriminate].
-  destruct (Nat.ltb_spec si ei) as [L|L]; [|discriminate].
-  pose proof (index_byte_lt _ _ _ I2) as L2.
-  destruct (slice_some items (Z.of_nat si + 1) (Z.of_nat ei)) as [spec Hs]; unfold zlen; try lia.
-  rewrite Hs. destruct (sscan_d_dot_d spec) as [oa ob]. apply partial_apply_total.
+  intros H1 H2. unfold flush_item. destruct (Nat.ltb_spec st e); [|discriminate].
+  destruct (slice_some items (Z.of_nat st) (Z.of_nat e)) as [tok ->]; unfold zlen; try lia.
+  destruct (parse_fetch_item tok) eqn:E; [discriminate | now apply parse_fetch_item_total in E].
 Qed.
 
-(** ---- HEADER.FIELDS ---- *)
-Lemma slice_to_lt_some (s : str) (c : ascii) (i : nat) :
-  index_byte s c = Some i -> exists r, slice_to s (Z.of_nat i) = Some r.
-Proof. intros H. apply index_byte_lt in H. apply slice_some; unfold zlen; lia. Qed.
-
-Lemma hf_tail_some (fs : str) :
-  (match index_byte fs ")" with
-   | Some cp =>
-       ' fs' <- slice_to fs (Z.of_nat cp) ;;
-       match fields fs' with
-       | [] => Some (Some hf_defaults)
-       | l => Some (Some (map (fun f => to_upper (trim_space f)) l))
-       end
-   | None => Some (Some hf_defaults)
-   end) <> None.
+Lemma pfi_loop_total (items : str) : forall (rest : str) (i st : nat) (b : bool),
+  st <= i -> i + length rest = length items -> pfi_loop items rest i st b <> None.
 Proof.
-  destruct (index_byte fs ")") as [cp|] eqn:I; [|discriminate].
-  destruct (slice_to_lt_some _ _ _ I) as [r ->]. destruct (fields r); discriminate.
+  induction rest as [|c r IH]; intros i st b H1 H2; simpl in *.
+  - apply flush_item_total; lia.
+  - destruct b; [apply IH; lia|].
+    destruct (Ascii.eqb c "["); [apply IH; lia|].
+    destruct (is_item_sep c); [|apply IH; lia].
+    destruct (flush_item items st i) eqn:F; [|apply flush_item_total in F; [contradiction|lia|lia]].
+    destruct (pfi_loop items r (S i) (S i) false) eqn:P; [discriminate|].
+    apply IH in P; [contradiction|lia|lia].
 Qed.
 
-Theorem header_fields_total (items : str) : header_fields items <> None.
+Theorem parse_fetch_items_total (items : str) : parse_fetch_items items <> None.
+Proof. apply pfi_loop_total; simpl; lia. Qed.
+
+(** ---- headerFieldNames, splitMessage, the part-number prefix, addSection ---- *)
+Theorem header_field_names_total (section : str) : header_field_names section <> None.
 Proof.
-  unfold header_fields.
-  destruct (contains (to_upper items) hf_peek || contains (to_upper items) hf_body); [|discriminate].
-  match goal with |- context [match ?X with Some _ => _ | None => Some (Some hf_defaults) end] => destruct X as [st|] end;
-    [|discriminate].
-  set (pl := if contains (to_upper items) hf_peek then 25%Z else 20%Z).
-  assert (0 <= pl)%Z by (unfold pl; destruct (contains _ _); lia).
-  destruct (Z.leb_spec (Z.of_nat st + pl) (zlen items)) as [G|G].
-  - unfold slice_from. destruct (slice_some items (Z.of_nat st + pl) (Z.of_nat (length items))) as [fs ->];
-      unfold zlen in *; try lia. apply hf_tail_some.
-  - apply hf_tail_some.
+  unfold header_field_names.
+  destruct (index_byte section "(") as [o|] eqn:I; [|discriminate].
+  pose proof (index_byte_lt _ _ _ I) as L.
+  destruct (slice_some section (Z.of_nat o + 1) (zlen section)) as [fs Hf]; unfold zlen; try lia.
+  unfold slice_from. unfold zlen in Hf. rewrite Hf.
+  destruct (index_byte fs ")") as [cp|] eqn:J; [|discriminate].
+  pose proof (index_byte_lt _ _ _ J) as L2.
+  destruct (slice_some fs 0 (Z.of_nat cp)) as [fs' Hs]; unfold zlen; try lia.
+  unfold slice_to. rewrite Hs. destruct (fields fs'); discriminate.
 Qed.
+
+Theorem split_message_total (msg : str) : split_message msg <> None.
+Proof.
+  unfold split_message. destruct (index msg crlfcrlf) as [i|] eqn:I; [|discriminate].
+  apply index_le in I. simpl in I.
+  destruct (slice_some msg 0 (Z.of_nat i + 4)) as [h Hh]; unfold zlen; try lia.
+  unfold slice_to. rewrite Hh.
+  destruct (slice_some msg (Z.of_nat i + 4) (zlen msg)) as [b Hb]; unfold zlen; try lia.
+  unfold slice_from. unfold zlen in Hb. rewrite Hb. discriminate.
+Qed.
+
+Theorem numeric_part_num_total (section : str) : numeric_part_num section <> None.
+Proof.
+  unfold numeric_part_num. destruct (index (to_upper section) (S_ ".MIME")) as [i|] eqn:I; [|discriminate].
+  apply index_le in I. rewrite to_upper_length in I. simpl in I.
+  destruct (slice_some section 0 (Z.of_nat i)) as [r Hr]; unfold zlen; try lia.
+  unfold slice_to. rewrite Hr. discriminate.
+Qed.
+
+Theorem apply_partial_total (it : fitem) (data : str) : apply_partial it data <> None.
+Proof. unfold apply_partial. destruct (f_partial it) as [[a b]|]; [apply partial_apply_total | discriminate]. Qed.
 
 (** ---- BuildBodyStructure single-part body ---- *)
 Theorem bs_single_body_total (raw : str) : bs_single_body raw <> None.
@@ -278,7 +337,7 @@ Example old_address_angle_slice : slice (S_ ">a<") 3 0 = None.           (* addr
 Proof. reflexivity. Qed.
 Example old_partial_negative_slice : slice (S_ "body") (-1) 4 = None.     (* payload[-1:4] *)
 Proof. reflexivity. Qed.
-Example old_header_fields_slice : slice_from (S_ "BODY[HEADER.FIELDS]") 20 = None.
+Example old_header_fields_slice : slice_from (S_ "BODY[HEADER.FIELDS]") 20 = None.   (* items[start+prefixLen:] before 182d3e8 / 4d6a9a4 *)
 Proof. reflexivity. Qed.
 Example old_bodystructure_slice : slice_from (S_ "A: b" ++ crlf ++ S_ "C: d" ++ [LF; LF]) 14 = None.
 Proof. reflexivity. Qed.
